@@ -124,27 +124,83 @@ Proof. vm_compute. repeat split; reflexivity. Qed.
 
 (* ===== END block "L1 law" ===== *)
 
+(* C02 -- Recovery never fabricates, corrupts or half-applies.
+
+   (The block "L1 law" about one segment file -- torn batches are recovered as absent,
+   complete ones in full -- is maintained separately and goes ABOVE this block.) *)
+
 (* ===== BEGIN block "WAL level" =====
-   INTERIM: the full WAL-level statement is `crash_refinement_stmt` of Wal/Hist.v
-   (all histories of calls, power losses at any I/O boundary with any adversary
-   choice, nested crashes inside recovery, reopen cycles).  Its proof is in progress;
-   until it lands only the fragment below is proved at this level and the property is
-   otherwise carried by the executable acceptance predicate hist_run/hs_ok (evaluated
-   on random histories of the model every run) and the crash-image enumeration on the
-   implementation (streams crash, segcrash). *)
-From RW Require Import Fmt.Codec Wal.Model Wal.Spec Wal.Hist Wal.BasicFacts.
+   The abstract disk of Wal/Model.v keeps, per file, the synced entries and at most one
+   written-but-unsynced batch; the crash adversary decides per file whether that batch
+   reached the disk completely (a torn batch is recovered as absent: the L1 law).  On
+   top of that, for ALL histories of calls, power losses at any I/O boundary with any
+   adversary choice (also inside recovery, nested) and reopens -- guards as in C01.v --
+   every crash point is covered BY PROOF (Wal/Crash*.v). *)
+From RW Require Import Base.Bytes Fmt.Codec Fmt.Frame Wal.Model Wal.Spec Wal.Hist
+  Wal.CrashInv Wal.CrashCalls10 Wal.CrashThm Wal.CrashExamples Wal.CrashExamplesFacts.
+Open Scope N_scope.
 
-(* the full statement (not yet a theorem) *)
-Definition C02_full_statement : Prop := crash_refinement_stmt.
+Theorem C02_crash_refinement : crash_refinement_stmt.
+Proof. exact crash_refinement. Qed.
+Print Assumptions C02_crash_refinement.
 
-(* proved fragment (abstract disk level): after a power loss a file holds its synced
-   entries, plus the batch in flight in full or not at all; nothing else *)
-Theorem C02_batch_whole_or_absent_partial :
-  forall c n f, df_dir f = true ->
-  exists f', crash_file c (n, f) = [(n, f')] /\ df_pend f' = None /\ df_dir f' = true /\
-             (df_ents f' = df_ents f \/
-              exists b, df_pend f = Some b /\ df_ents f' = df_ents f ++ pb_ents b /\ df_end f' = pb_end b).
-Proof. exact crash_file_durable. Qed.
-Print Assumptions C02_batch_whole_or_absent_partial.
+(* After any crash, Open succeeds and what it recovers (log AND stable store) is exactly
+   the ledger state [hs_acked] -- the contiguous log built from the contents passed to
+   the StoreLogs/DeleteRange calls that returned nil -- or [hs_may], that state with the
+   interrupted call applied in full.  Nothing never written, torn, or of a
+   truncated-away generation can be returned: the recovered state is one of these two
+   spec states, and GetLog reads exactly the spec state (next theorem). *)
+Theorem C02_recovered_is_ledger :
+  forall c steps d,
+    (cfg_ok c /\ Forall hstep_wf steps /\ short_enough steps) ->
+    hs_mode (hist_run c hist_init steps) = Down d ->
+    exists w e, open_wal c (env_of d) = (OOk w, e) /\
+      ({| sp_log := abs w (e_disk e); sp_kv := dk_stable (e_disk e) |} = hs_acked (hist_run c hist_init steps) \/
+       {| sp_log := abs w (e_disk e); sp_kv := dk_stable (e_disk e) |} = hs_may (hist_run c hist_init steps)) /\
+      dir_exact (e_disk e) = true /\ Forall not_fail (e_acts e).
+Proof. exact recovery_after_any_history. Qed.
+Print Assumptions C02_recovered_is_ledger.
 
+(* A call interrupted at ANY of its I/O boundaries (j arbitrary) with ANY adversary
+   choice is, after recovery, applied in full or not at all; for o = OStore ls this is:
+   the batch in flight is present in full or absent in full. *)
+Theorem C02_inflight_call_atomic :
+  forall c steps s o j cc d,
+    (cfg_ok c /\ Forall hstep_wf (steps ++ [HCrashIn o j cc]) /\ short_enough (steps ++ [HCrashIn o j cc])) ->
+    hs_mode (hist_run c hist_init steps) = Up s ->
+    hs_mode (hist_run c hist_init (steps ++ [HCrashIn o j cc])) = Down d ->
+    exists w e, open_wal c (env_of d) = (OOk w, e) /\
+      ({| sp_log := abs w (e_disk e); sp_kv := dk_stable (e_disk e) |} = hs_acked (hist_run c hist_init steps) \/
+       {| sp_log := abs w (e_disk e); sp_kv := dk_stable (e_disk e) |}
+         = snd (step_spec (hs_acked (hist_run c hist_init steps)) o)) /\
+      dir_exact (e_disk e) = true.
+Proof. exact interrupted_call_atomic. Qed.
+Print Assumptions C02_inflight_call_atomic.
+
+(* After any history (in particular after any crash and reopen) FirstIndex..LastIndex is
+   contiguous: every index in it is readable and GetLog returns exactly the ledger's
+   entry for it, i.e. the content most recently passed to StoreLogs for that index. *)
+Theorem C02_range_is_readable :
+  forall c steps s i,
+    (cfg_ok c /\ Forall hstep_wf steps /\ short_enough steps) ->
+    hs_mode (hist_run c hist_init steps) = Up s ->
+    forall fi la, first_index_op (ss_wal s) = RVal fi -> last_index_op (ss_wal s) = RVal la ->
+    1 <= fi -> fi <= i -> i <= la ->
+    exists l, fst (get_log (ss_wal s) i (ss_env s)) = RLog l /\
+              spec_get (sp_log (hs_acked (hist_run c hist_init steps))) i = Some l.
+Proof. exact range_is_readable. Qed.
+Print Assumptions C02_range_is_readable.
+
+(* ---- non-vacuity: a 2-entry batch in flight (written, not fsynced) is recovered whole
+   or not at all; a truncated-away entry (index 3, term 1) does not come back after
+   index 3 was re-appended with term 7 and another crash *)
+Example C02_ex_guards : hist_ok cfg128 hist_batch_lost /\ hist_ok cfg256 hist_trunc_after_commit.
+Proof. exact (conj hist_batch_lost_ok hist_trunc_after_commit_ok). Qed.
+Example C02_ex_batch_atomic :
+  final_ok cfg128 hist_batch_kept = true /\ final_last cfg128 hist_batch_kept = 4 /\
+  final_ok cfg128 hist_batch_lost = true /\ final_last cfg128 hist_batch_lost = 2.
+Proof. vm_compute. repeat split; reflexivity. Qed.
+Example C02_ex_no_old_generation :
+  final_ok cfg256 hist_trunc_after_commit = true /\ final_term cfg256 hist_trunc_after_commit 3 = Some 7.
+Proof. vm_compute. split; reflexivity. Qed.
 (* ===== END block "WAL level" ===== *)
